@@ -27,6 +27,13 @@ for meta in sorted(glob.glob(os.path.join(VERIF, "seeded", "*", "meta.json"))):
 for b in sorted(glob.glob(os.path.join(VERIF, "benign", "*", "patch.diff"))):
     entries.append({"prop": prop, "patch": b, "benign": os.path.basename(os.path.dirname(b))})
 
+# mechanical behaviour-preserving rewrites of the whole tree (tools/benigngen): every comparison mirrored, every
+# if/else inverted, else-after-return removed, && / || operands swapped, && conditions nested
+GEN = os.path.join(VERIF, "bin", "benigngen")
+if os.path.exists(GEN):
+    for mode in ("swapcmp", "invertif", "elseret", "swapand", "nestand"):
+        entries.append({"prop": prop, "gen": mode})
+
 from concurrent.futures import ThreadPoolExecutor
 WORKERS = int(os.environ.get("SELFTEST_WORKERS", "5"))
 
@@ -37,7 +44,12 @@ def run_one(e):
     try:
         work = os.path.join(tmp, "repo")
         subprocess.run(["rsync", "-a", "--exclude", ".git", REPO + "/", work + "/"], check=True)
-        if "commit" in e:
+        if "gen" in e:
+            name = "rewrite:" + e["gen"]
+            e["expect"] = "(no violation)"
+            e["benign"] = e["gen"]
+            ap = subprocess.run([GEN, "-mode", e["gen"], work], capture_output=True, text=True)
+        elif "commit" in e:
             name = "revert:" + e["commit"]
             diff = subprocess.run(["git", "-C", REPO, "show", "--format=", e["commit"]], capture_output=True, text=True)
             if diff.returncode != 0:
